@@ -3,7 +3,8 @@ C13 helper lemmas, part 5 (routes of any length): one hop to a neighbour that ma
 (on the call stack, inside its own `read()`), and may have received frames before.
 
 `hop_single` (NrfProofs/C05Closed.lean) asks that the receiver is off the call stack (its FIFO is then
-empty by quietness) and has never received anything.  On the way back of a NETWORK_ACK neither holds:
+empty by quietness) (it used to ask for a receiver that never received anything; now only `NotDup`).  On the way
+back of a NETWORK_ACK the first does not hold:
 the receiver is the router that forwarded the data frame — it is on the call stack, listening inside
 the `read()` of its `_net_update()` loop — and its radio remembers the data frame.  `hop_any` asks
 for what reception really needs: room in the RX FIFO and a packet different from the last one.
